@@ -834,6 +834,33 @@ package server
 // the hover text is built from is that tree's list - the tree as resolved, not a variant of it - and the balances shown
 // are the per-account, per-commodity sums over exactly that list. (The clauses speak about the locals the hover text is
 // built from; the text itself is string formatting and is not modelled.)
+// What a hover answers about lies under the cursor (C08, on target): the range of the element found contains the
+// position asked for. Callers keep the naming contract below (the bounds need range validity of every amount and tag of
+// the tree, which Parse does not promise); the body is checked against the on-target clause. Tags lie on one line by
+// parseTags' contract (TagAt); that is carried here as a hypothesis.
+//@ pred TagsOneLine(tags) := forall k int :: {tags[k]} 0 <= k && k < len(tags) ==> tags[k].Range.Start.Line == tags[k].Range.End.Line
+//@ func findTagAtPosition
+//@   props C08
+//@   ensures [fresh] result == nil || fresh(result)
+//@   ensures [C08:tag_hover_on_target] result != nil && TagsOneLine(tags) ==> InRng(pos, result.rng)
+//@   ensures [C08:tag_hover_names_a_tag] result != nil ==> (exists k int :: {tags[k]} 0 <= k && k < len(tags) && InRng(pos, tags[k].Range) && result.tagName == tags[k].Name)
+//@   loop 1 invariant 0 - 1 <= rangeindex && rangeindex <= len(tags) - 1
+//@   loop 1 decreases len(tags) - rangeindex
+//@ pred JTagsOneLine(j) := (forall i int, c int :: {j.Transactions[i].Comments[c]} 0 <= i && i < len(j.Transactions) && 0 <= c && c < len(j.Transactions[i].Comments) ==> TagsOneLine(j.Transactions[i].Comments[c].Tags)) && (forall i int, q int :: {j.Transactions[i].Postings[q]} 0 <= i && i < len(j.Transactions) && 0 <= q && q < len(j.Transactions[i].Postings) ==> TagsOneLine(j.Transactions[i].Postings[q].Tags))
+//@ bodycheck findElementAtPosition
+//@   props C08
+//@   requires journal != nil
+//@   ensures [C08:hover_on_target] result != nil && JTagsOneLine(journal) ==> InRng(pos, result.rng)
+//@   loop 1 invariant 0 - 1 <= rangeindex && rangeindex <= len(journal.Transactions) - 1
+//@   loop 1 decreases len(journal.Transactions) - rangeindex
+//@   loop 2 invariant 0 <= i && i < len(journal.Transactions)
+//@   loop 2 invariant 0 - 1 <= rangeindex
+//@   loop 2 invariant rangeindex <= len(journal.Transactions[i].Comments) - 1
+//@   loop 2 decreases len(journal.Transactions[i].Comments) - rangeindex
+//@   loop 3 invariant 0 <= i && i < len(journal.Transactions)
+//@   loop 3 invariant 0 - 1 <= rangeindex
+//@   loop 3 invariant rangeindex <= len(journal.Transactions[i].Postings) - 1
+//@   loop 3 decreases len(journal.Transactions[i].Postings) - rangeindex
 //@ trusted findElementAtPosition
 //@   effects none
 //@   ensures result != nil ==> result.rng.Start.Line >= 1 && result.rng.Start.Column >= 1 && result.rng.End.Line >= 1 && result.rng.End.Column >= 1 && result.rng.Start.Line <= 4294967296 && result.rng.Start.Column <= 4294967296 && result.rng.End.Line <= 4294967296 && result.rng.End.Column <= 4294967296
